@@ -196,13 +196,13 @@ class Creators:
         "Cannot add instance of incompatible line type "+
         str(type(gfa_line)))
     if gfa_line.record_type == "H":
-      self._n_input_header_lines += 1
       if self._vlevel > 0 and gfa_line.VN and gfa_line.VN != "1.0":
         raise gfapy.VersionError(
           "Header line specified wrong version ({})\n".format(gfa_line.VN)+
           "Line: {}\n".format(gfa_line)+
           "File version: 1.0 ({})".format(self._version_explanation))
       self.header._merge(gfa_line)
+      self._n_input_header_lines += 1
     elif gfa_line.record_type == "S":
       if gfa_line.version == "gfa2":
         raise gfapy.VersionError(
@@ -230,13 +230,13 @@ class Creators:
         "Cannot add instance of incompatible line type "+
         str(type(gfa_line)))
     if gfa_line.record_type == "H":
-      self._n_input_header_lines += 1
       if self._vlevel > 0 and gfa_line.VN and gfa_line.VN != "2.0":
         raise gfapy.VersionError(
           "Header line specified wrong version ({})\n".format(gfa_line.VN)+
           "Line: {}\n".format(gfa_line)+
           "File version: 2.0 ({})".format(self._version_explanation))
       self.header._merge(gfa_line)
+      self._n_input_header_lines += 1
     elif gfa_line.record_type == "S":
       if gfa_line.version == "gfa1":
         raise gfapy.VersionError(
